@@ -202,6 +202,21 @@ class Impl:
                 os.utime(fp, ns=(st.st_atime_ns, st.st_mtime_ns))
             op["state"] = "modified"
             return None
+        if k == "orphan":
+            # what a create leaves behind when it is killed between its two replaces: a complete manifest that the chain
+            # file does not list (here: a copy of the latest manifest under the next number)
+            ad = os.path.join(self.P(op["hist"]), "ascmhl")
+            ms = sorted(f for f in os.listdir(ad) if f.endswith(".mhl")) if os.path.isdir(ad) else []
+            if not ms:
+                return None
+            src = ms[-1]
+            num = int(src.split("_")[0]) + 1
+            dst = "%04d_%s" % (num, src.split("_", 1)[1].replace(".mhl", "x.mhl") if op.get("other_name") else src.split("_", 1)[1])
+            if os.path.exists(os.path.join(ad, dst)):
+                return None
+            shutil.copy(os.path.join(ad, src), os.path.join(ad, dst))
+            op["file"], op["as"] = src, dst
+            return None
         if k == "rmchain":
             cp = os.path.join(self.P(op["hist"]), "ascmhl", "ascmhl_chain.xml")
             if os.path.exists(cp):
@@ -515,6 +530,9 @@ def run_scenario(sc, drv=None, keep=False, impl_only=False):
                 elif k == "tamper":
                     if "file" in op:
                         drv.send({"op": "tamper", "hist": op["hist"], "file": op["file"], "state": op["state"]})
+                elif k == "orphan":
+                    if "as" in op:
+                        drv.send({"op": "orphan", "hist": op["hist"], "file": op["file"], "as": op["as"]})
                 elif k == "rmchain":
                     drv.send({"op": "rmchain", "hist": op["hist"], "present": False})
                 else:
